@@ -50,9 +50,9 @@ Print Assumptions C20_literal_comparisons_no_match.
    navigation copies the value reached). *)
 From JP Require Import Json Text Tree Grammar Actions KeyDefs ChainParse ChainAddr FiltChain FiltAddr FiltChainAddr.
 From Coq Require Import List. Import ListNotations.
-Lemma opaque_reaches_nothing parse_float x r t i s l : nav_allf parse_float (x :: r) (l, VOpaque t i s) = [].
+Lemma opaque_reaches_nothing parse_float root x r t i s l : nav_allf parse_float root (x :: r) (l, VOpaque t i s) = [].
 Proof.
-  cbn [nav_allf]. assert (E : nav1f parse_float x (l, VOpaque t i s) = []); [|rewrite E; reflexivity].
+  cbn [nav_allf]. assert (E : nav1f parse_float root x (l, VOpaque t i s) = []); [|rewrite E; reflexivity].
   destruct x as [[k|k]|i0|i0 o lit|i0|d]; cbn [nav1f nav1r navf navp fst snd]; try reflexivity.
   destruct k; reflexivity.
 Qed.
